@@ -56,6 +56,16 @@ static void one_case(const cons *C, size_t mlen, size_t adlen, int pat)
     r = C->decd(dm, c_ref, mlen, tag_ref, adp, adlen, nonce, &kc);
     if (r != 0 || memcmp(dm, m, mlen) || dm[mlen] != 0xA5) BAD("detached", "detached decrypt of the reference ciphertext failed");
     if (C->null_m_verify) { r = C->decd(NULL, c_ref, mlen, tag_ref, adp, adlen, nonce, &kc); if (r != 0) BAD("verify-only", "m=NULL verification of a valid ciphertext failed"); }
+    /* zero-length arguments given as NULL pointers (allowed by the prototypes) must give the same result as non-NULL empty buffers */
+    if (mlen == 0 && !C->is_box) {
+        memset(out, 0xA5, 128); ol = 4321;
+        r = C->enc(out + 16, &ol, NULL, 0, adp, adlen, nonce, &kc); n_eval++;
+        if (r != 0 || ol != T || memcmp(out + 16, tag_ref, T)) BAD("combined(m=NULL,mlen=0)", "differs from the reference / the non-NULL form");
+        memset(tag, 0, 32); r = C->encd(c, tag, NULL, 0, adp, adlen, nonce, &kc);
+        if (r != 0 || memcmp(tag, tag_ref, T)) BAD("detached(m=NULL,mlen=0)", "differs from the reference / the non-NULL form");
+        r = C->decd(dm, NULL, 0, tag_ref, adp, adlen, nonce, &kc);
+        if (r != 0) BAD("detached-decrypt(c=NULL,clen=0)", "valid empty ciphertext rejected");
+    }
     /* extra forms */
     for (x = 0; x < C->nx; x++) {
         memset(c, 0xA5, mlen + 64); memset(tag, 0, 32);
